@@ -126,7 +126,7 @@ impl Property for P {
     }
     fn cases(tier: Tier) -> u64 {
         match tier {
-            Tier::Quick => 2_500,
+            Tier::Quick => 12_000,
             Tier::Thorough => 80_000,
         }
     }
